@@ -4,7 +4,7 @@ import ast
 import z3
 
 from .values import V, VNone, NONE, VInt, VBool, VBytes, VStr, VFloat, VList, VTuple, VSeq, VDict, DEntry, VObj, \
-    VClass, VEnum, VFunc, VBuiltin, VTag, VOpaque, VExc, VLib, PyRaise, OutOfSubset, mk, conc_key, BSort, SSort
+    VClass, VEnum, VFunc, VBuiltin, VTag, VOpaque, VExc, VLib, PyRaise, OutOfSubset, mk, conc_key, dict_key, SymKey, BSort, SSort
 
 I, B_, S = z3.IntSort(), z3.BoolSort(), z3.StringSort()
 
@@ -830,9 +830,9 @@ def _dict_items(it, self, args, kw):
 def _dict_get(it, self, args, kw):
     s = _s()
     default = args[1] if len(args) > 1 else NONE
-    c = s.contains(it, self, args[0])
-    if it.branch(c) if not isinstance(c, bool) else c:
-        return s.getitem(it, self, args[0])
+    e = s.dict_find(it, self, args[0])
+    if e is not None and e != "opaque":
+        return e.value
     return default
 
 
@@ -842,11 +842,12 @@ def _dict_pop(it, self, args, kw):
     if self.frozen:
         it.raise_(AttributeError, "'cbor2.frozendict' object has no attribute 'pop'")
     s.mark_global_write(it, self, "dict")
-    c = s.contains(it, self, args[0])
-    if it.branch(c) if not isinstance(c, bool) else c:
-        v = s.getitem(it, self, args[0])
-        del self.entries[conc_key(args[0])]
-        return v
+    e = s.dict_find(it, self, args[0])
+    if e is not None and e != "opaque":
+        for k, ee in list(self.entries.items()):
+            if ee is e:
+                del self.entries[k]
+        return e.value
     if len(args) > 1:
         return args[1]
     it.raise_(KeyError, "pop")
@@ -1618,3 +1619,13 @@ def _spec_keys_dir(it, self, args, kw):
 def _spec_pathstr(it, self, args, kw):
     p = args[0]
     return p.f["s"] if isinstance(p, VLib) and p.kind == "Path" else p
+
+
+@handler("spec.UNHEX")
+def _spec_unhex(it, self, args, kw):
+    s = _s()
+    x = args[0]
+    if x.conc is not None:
+        return VBytes(bytes.fromhex(x.conc))
+    t = s.UNHEX(x.e)
+    return VBytes(t)
